@@ -362,6 +362,80 @@ def store (truthy : V → Bool) (h : Heap V) : List (Ev V) → Except StoreErr (
       | .ok h' => store truthy h' t
       | .error x => .error x
 
+/-! ### the raw list assignment node: values and separator matches
+
+`attr+=X[sep]` / `attr*=X[sep]`: Arpeggio's repetition appends the node of the
+separator match and the node of the value to one flat list.  A separator that
+matched the empty string leaves no node, a separator that matched before a value
+that then failed stays as a trailing node, so values and separators do *not*
+alternate.  `process_node` (after the `fix:` commit) skips a child exactly when it
+was made by the separator match of this assignment (`n.rule is sep_rule`);
+neither the child's rule name nor its place is looked at. -/
+
+/-- one child `n` of an `__asgn_zeroormore` / `__asgn_oneormore` node: `rule`
+identifies the parsing expression that made it (`n.rule`), `val` is what
+`process_node(n)` returns for it -/
+structure Kid (V : Type) where
+  rule : Nat
+  val : V
+deriving Repr
+
+/-- `sep_rule is None or n.rule is not sep_rule` -/
+def Kid.kept (sep : Option Nat) (k : Kid V) : Bool :=
+  match sep with
+  | none => true
+  | some s => k.rule != s
+
+/-- the values of the children that are not separator matches, in input order -/
+def kidVals (sep : Option Nat) (ks : List (Kid V)) : List V :=
+  (ks.filter (Kid.kept sep)).map Kid.val
+
+/-- the `for n in node` loop as it is written: separator children are skipped
+where they stand, every other child is appended -/
+def storeKids (h : Heap V) (a : Attr) (sep : Option Nat) : List (Kid V) → Except StoreErr (Heap V)
+  | [] => .ok h
+  | k :: ks =>
+      if k.kept sep then
+        match h a with
+        | .none => storeKids (h.set a (.list [k.val])) a sep ks
+        | .list xs => storeKids (h.set a (.list (xs ++ [k.val]))) a sep ks
+        | .scalar _ => .error .crash
+      else storeKids h a sep ks
+
+/-- an `__asgn_*` node as Arpeggio hands it over: list assignments with all their
+children and the separator match of their repeat modifiers (if any) -/
+inductive Raw (V : Type)
+  | plain (a : Attr) (v : V)
+  | bool (a : Attr) (v : V)
+  | list (a : Attr) (plus : Bool) (sep : Option Nat) (kids : List (Kid V))
+deriving Repr
+
+/-- the assignment event of a raw node: the values of its non-separator children -/
+def Raw.ev : Raw V → Ev V
+  | .plain a v => .plain a v
+  | .bool a v => .bool a v
+  | .list a plus sep ks => .list a plus (kidVals sep ks)
+
+def storeRawEv (truthy : V → Bool) (h : Heap V) : Raw V → Except StoreErr (Heap V)
+  | .plain a v => storeEv truthy h (.plain a v)
+  | .bool a v => storeEv truthy h (.bool a v)
+  | .list a _ sep ks => storeKids h a sep ks
+
+/-- `process_node` over the raw assignment nodes of one object -/
+def storeRaw (truthy : V → Bool) (h : Heap V) : List (Raw V) → Except StoreErr (Heap V)
+  | [] => .ok h
+  | e :: t =>
+      match storeRawEv truthy h e with
+      | .ok h' => storeRaw truthy h' t
+      | .error x => .error x
+
+/-- the seeded variant "separators stand at the odd places" (not the code):
+with a separator every second child is skipped, whatever made it -/
+def kidValsByPlace (sep : Option Nat) (ks : List (Kid V)) : List V :=
+  match sep with
+  | none => ks.map Kid.val
+  | some _ => ((ks.zipIdx).filter (fun p => p.2 % 2 == 0)).map (fun p => p.1.val)
+
 /-- the outcome of `store` observed at the attributes `as` -/
 def peek (r : Except StoreErr (Heap V)) (as : List Attr) : StoreErr ⊕ List (Slot V) :=
   match r with
